@@ -1,6 +1,6 @@
 use decoded_char::DecodedChar;
 use locspan::{Meta, Span};
-use std::{fmt, io};
+use std::fmt;
 
 mod array;
 mod boolean;
@@ -59,13 +59,25 @@ impl Default for Options {
 
 pub trait Parse: Sized {
 	fn parse_slice(content: &[u8]) -> Result<(Self, CodeMap), Error> {
-		Self::parse_utf8(utf8_decode::Decoder::new(content.iter().copied()))
-			.map_err(Error::io_into_utf8)
+		Self::parse_slice_with(content, Options::default())
 	}
 
 	fn parse_slice_with(content: &[u8], options: Options) -> Result<(Self, CodeMap), Error> {
-		Self::parse_utf8_with(utf8_decode::Decoder::new(content.iter().copied()), options)
-			.map_err(Error::io_into_utf8)
+		match std::str::from_utf8(content) {
+			Ok(content) => Self::parse_str_with(content, options),
+			Err(e) => {
+				// Parse the well-formed prefix, followed by a stream error
+				// located at the first ill-formed sequence. A syntax error
+				// occurring before it is still reported first.
+				let valid = &content[..e.valid_up_to()];
+				let valid = unsafe { std::str::from_utf8_unchecked(valid) };
+				Self::parse_utf8_with(
+					valid.chars().map(Ok).chain(std::iter::once(Err(()))),
+					options,
+				)
+				.map_err(Error::stream_into_utf8)
+			}
+		}
 	}
 
 	fn parse_str(content: &str) -> Result<(Self, CodeMap), Error> {
@@ -324,8 +336,9 @@ impl<E> Error<E> {
 	}
 }
 
-impl Error<io::Error> {
-	fn io_into_utf8(self) -> Error {
+impl<E> Error<E> {
+	/// Turns a stream error into an UTF-8 encoding error.
+	fn stream_into_utf8(self) -> Error {
 		match self {
 			Self::Stream(p, _) => Error::InvalidUtf8(p),
 			Self::Unexpected(p, e) => Error::Unexpected(p, e),
